@@ -405,6 +405,21 @@ def _r11_3_precision_cache(ctx, prog, crate):
         tree = prog.closure_tree(pb)
         names = {c.callee for x in tree for c in x.live_calls()}
         ctx.check("time::timer::Timer::measure_precision" in names, "R11.3", ["Timer::precision", "is-the-measured-value"], "Timer::precision does not come from measure_precision", pb.where(0))
+        # ... and is handed out as measured: the cache holds the FineDuration itself - no conversion to another unit and
+        # back (ticks <-> picoseconds both round down; the round trip loses a tick whenever the frequency does not divide)
+        from lib.patheval import PathEval
+        arith = []
+        for x in tree:
+            if x.inlined_from(0) if False else False:
+                continue
+            for bi, si, st in x.stmts():
+                if st["k"] == "assign" and st["rv"]["k"] == "binop" and st["rv"]["op"].replace("WithOverflow", "") in ("Mul", "Div", "Rem", "Add", "Sub", "Shl", "Shr") and not x.inlined_from(bi):
+                    arith.append("%s:%s" % (x.path.rsplit("::", 1)[-1], st["rv"]["op"]))
+        calls = sorted({c.callee for x in tree for c in x.live_calls() if not x.inlined_from(c.bb)} -
+                       {"time::timer::Timer::measure_precision", "time::timer::Timer::kind", "std::sync::OnceLock::get_or_init", "std::sync::OnceLock::new"})
+        ctx.check(not arith and not calls, "R11.3", ["Timer::precision", "handed-out-as-measured"],
+                  "Timer::precision does more than cache measure_precision's value (arithmetic %s, calls %s): a converted and re-converted "
+                  "precision is no longer the step that was measured" % (arith, calls), pb.where(0))
 
 
 def r11_4(ctx, prog, crate):
@@ -539,6 +554,7 @@ def r11_3(ctx, prog, crate):
             src = pb.prov.local_src(pr["l"])
             okk = okk or (any(z.kind in ("discr", "call") for z in src) and any(z.kind == "param" for z in src))
         ctx.check(okk or not idx, "R11.3", ["Timer::precision", "cached-per-kind"], "the precision cache is not indexed by the timer's kind", pb.where(0))
+    _r11_3_precision_cache(ctx, prog, crate)
 
 
 def run(ctx, prog, crate):
